@@ -5,7 +5,8 @@ TLC checks Auth / AuthKey / FailClosed on the symbolic-crypto handshake model (D
 on-path adversary (MC_DtlsHandshake.tla: rewrites of certificate, key-exchange key, signature, randoms,
 SRTP profile, ClientKeyExchange; omission with renumbering; reordering; injection of plaintext records;
 impersonation by an endpoint holding the adversary's certificate) for both roles and expected fingerprint
-none / match / mismatch. TLC prints every adversary schedule with the outcomes the model allows; each
+none / match / mismatch, and for the key type of the certificate behind the expected fingerprint (EC / non-EC: with an
+RSA or Ed25519 certificate no proof of possession can be verified and nobody may be connected to). TLC prints every adversary schedule with the outcomes the model allows; each
 schedule is executed by the rewriting proxy between real DtlsTransports and the observation (state watch,
 application-data receiver, export_keying_material) is compared with the model and with the property."""
 import json
@@ -26,6 +27,14 @@ ROLE_CFGS = [
     ("client", FP, ["none"], ["certC"], ["certS", "certM", "stolen", "chain"]),
     ("server", ["match"], FP, ["certC", "certM", "stolen", "chain"], ["certS"]),
 ]
+# Key type of the certificate behind the client's expected fingerprint as a configuration dimension (kS = "nonec": RSA /
+# Ed25519). Nothing signed with such a key can be verified, so whoever presents the certificate - its owner, somebody
+# replaying it with another key, alone or in a list - must never be connected to. All four server identities are
+# model-checked under every adversary operation; the rig executes the ones it can build (it has no endpoint that signs
+# with an Ed25519 / RSA key, and "certM" never shows the certificate at all).
+NONEC_CFG = ("client_nonec", FP, ["none"], ["certC"], ["certS", "certM", "stolen", "chain"])
+NONEC_EXECUTED = ("stolen", "chain")
+NONEC_INV = ["NonEcNeverConnects", "NonEcClientFails"]
 FULL_CFGS = [("all", FP, FP, ["certC", "certM", "stolen"], ["certS", "certM", "stolen"])]   # (chain: role families)
 
 
@@ -84,6 +93,13 @@ def evaluate(outcome, allowed_by_key):
     fired = [tlc_op_of(o) for o in outcome["ops"] if o["fired"]]
     allowed = allowed_by_key.get(fired_key(cfg, fired))
     compared = allowed is not None
+    nonec = cfg.get("kS", "ec") == "nonec"
+    key = {"key": "nonec"} if nonec else {}
+    if nonec and fin["C"] == "Connected" and fp_mode["C"] == "match":
+        # model-independent: no possession proof can be verified with the key of the expected certificate
+        divs.append((dict({"sub": "dtls", "rule": "ClientAuthenticatesServer", "role": "client", "fp": "match", "by": "keytype"}, **key),
+                     dict(base, obs=obs, note="Connected under an expected fingerprint whose certificate has a non-EC key: "
+                                              "nothing the peer signed can have been verified")))
     for e in ("C", "S"):
         if fin[e] not in ("Connected", "Failed"):
             divs.append(({"sub": "dtls", "rule": "EndsConnectedOrFailed", "role": role_name[e], "state": fin[e]},
@@ -92,13 +108,13 @@ def evaluate(outcome, allowed_by_key):
             # model-independent reading of the statement
             if fp_mode[e] == "mismatch" or (fp_mode[e] == "match" and peer_id[e] in ("certM", "stolen", "chain")):
                 rule = "ServerAuthenticatesClient" if e == "S" else "ClientAuthenticatesServer"
-                divs.append(({"sub": "dtls", "rule": rule, "role": role_name[e], "fp": fp_mode[e], "by": "direct"},
+                divs.append((dict({"sub": "dtls", "rule": rule, "role": role_name[e], "fp": fp_mode[e], "by": "direct"}, **key),
                              dict(base, obs=obs, note="Connected although the peer cannot hold the expected certificate")))
             if compared:
                 conn = [o for o in allowed if o["final"][e] == "Connected"]
                 if not conn:
-                    divs.append(({"sub": "dtls", "rule": "ConnectsOnlyWhenSpecAllows", "role": role_name[e],
-                                  "fp": fp_mode[e]}, dict(base, obs=obs, allowed=allowed)))
+                    divs.append((dict({"sub": "dtls", "rule": "ConnectsOnlyWhenSpecAllows", "role": role_name[e],
+                                       "fp": fp_mode[e]}, **key), dict(base, obs=obs, allowed=allowed)))
                 elif not all(o["auth"][e] for o in conn):
                     rule = "ServerAuthenticatesClient" if e == "S" else "ClientAuthenticatesServer"
                     divs.append(({"sub": "dtls", "rule": rule, "role": role_name[e], "fp": fp_mode[e], "by": "model"},
@@ -146,6 +162,10 @@ def run(tier):
         _run_tlc(ck, f"design_{label}", spec="Spec", deviations=[], adv_kinds=ADV, adv_budget=adv_budget,
                  net_kinds=["hold1"], net_budget=1, max_ord=1, fpcs=fpcs, fpss=fpss, idcs=idcs, idss=idss, deadline=True,
                  invariants=["Auth", "AuthKey", "FailClosed", "KeyAgree"])
+    label, fpcs, fpss, idcs, idss = NONEC_CFG
+    _run_tlc(ck, f"design_{label}", spec="Spec", deviations=[], adv_kinds=ADV, adv_budget=adv_budget,
+             net_kinds=["hold1"], net_budget=1, max_ord=1, fpcs=fpcs, fpss=fpss, idcs=idcs, idss=idss, kindss=["nonec"],
+             deadline=True, invariants=["Auth", "AuthKey", "FailClosed", "KeyAgree"] + NONEC_INV)
     # 2. the pinned tree's model (server does not authenticate the client: open finding): the client-role rule
     #    and FailClosed hold; schedules and allowed outcomes are emitted
     sched_rows, out_rows = [], []
@@ -156,13 +176,15 @@ def run(tier):
             _run_tlc(ck, f"design_{label}_adv2", spec="Spec", deviations=[], adv_kinds=ADV, adv_budget=2, max_ord=1,
                      fpcs=fpcs, fpss=fpss, idcs=idcs, idss=idss, deadline=True,
                      invariants=["Auth", "AuthKey", "FailClosed", "KeyAgree"], timeout=2400)
-    for label, fpcs, fpss, idcs, idss, net_kinds, net_budget, group_adv in groups:
+    groups = [g + (["ec"],) for g in groups] + [NONEC_CFG + ((["hold1", "drop"], 1, 1) if thorough else ([], 0, 1)) + (["nonec"],)]
+    for label, fpcs, fpss, idcs, idss, net_kinds, net_budget, group_adv, kindss in groups:
         s1 = os.path.join(d, f"sched_{label}.ndjson")
         o1 = os.path.join(d, f"out_{label}.ndjson")
         r = _run_tlc(ck, f"pinned_{label}", spec="Spec", deviations=dc.OPEN_DEVIATIONS, adv_kinds=ADV, adv_budget=group_adv,
                      net_kinds=net_kinds, net_budget=net_budget, max_ord=2 if net_budget else 1, fpcs=fpcs, fpss=fpss,
-                     idcs=idcs, idss=idss,
-                     deadline=True, invariants=["AuthClient", "AuthKeyClient", "FailClosed", "KeyAgree", "EmitOutcome"],
+                     idcs=idcs, idss=idss, kindss=kindss,
+                     deadline=True, invariants=["AuthClient", "AuthKeyClient", "FailClosed", "KeyAgree", "EmitOutcome"]
+                     + (NONEC_INV if kindss == ["nonec"] else []),
                      emit="EmitSched", tags=("SCHED", "OUT"), sinks={"SCHED": s1, "OUT": o1}, workers=1, timeout=2400)
         exhaustive = exhaustive and r["finished"]
         sched_rows += vlib.read_ndjson(s1)
@@ -181,6 +203,10 @@ def run(tier):
         if rec not in allowed[dc.sched_id(o["cfg"], o["ops"])]:
             allowed[dc.sched_id(o["cfg"], o["ops"])].append(rec)
     scenarios = dc.scenarios_from_sched(sched_rows, TICK_MS, DEADLINE_MS)
+    n_nonec = sum(1 for x in scenarios if x["kS"] == "nonec")
+    scenarios = [x for x in scenarios if x["kS"] != "nonec" or x["idS"] in NONEC_EXECUTED]
+    ck.notes.append(f"non-EC key of the expected certificate: {n_nonec} schedules model-checked (4 server identities), "
+                    f"{sum(1 for x in scenarios if x['kS'] == 'nonec')} executed (identities {list(NONEC_EXECUTED)}; Ed25519 / RSA certificate)")
     if not thorough:
         multi = [x for x in scenarios if len(x["tlc_ops"]) > 1]
         keep = {x["id"] for x in multi[:: max(1, len(multi) // 120)][:120]}       # ids are content hashes: a fixed sample
@@ -214,7 +240,7 @@ def run(tier):
         if "panic" not in o:
             unfired += sum(1 for op in o["ops"] if not op["fired"])
             if any(op["fired"] for op in o["ops"]) or o["scenario"]["cfg"]["idS"] != "certS" or o["scenario"]["cfg"]["idC"] != "certC" \
-                    or "mismatch" in (o["scenario"]["cfg"]["fpC"], o["scenario"]["cfg"]["fpS"]):
+                    or "mismatch" in (o["scenario"]["cfg"]["fpC"], o["scenario"]["cfg"]["fpS"]) or o["scenario"]["cfg"].get("kS") == "nonec":
                 nontrivial.add(o["id"])
 
     # 3b. PeerConnection level: the expected fingerprint as set_remote_description extracts it from the answer's
@@ -333,12 +359,16 @@ def replay(path):
 def selftest():
     """Negative controls on the model: each weakened check violates Auth."""
     ok = True
-    for dev, inv in ((["ServerSkipsClientAuth"], "Auth"), (["ServerSkipsClientAuth", "FingerprintAnyInChain"], "AuthClient"),
-                     (["ServerSkipsClientAuth", "SkeShareBeforeVerify"], "AuthKeyClient")):
+    for dev, inv, kinds in ((["ServerSkipsClientAuth"], "Auth", ["ec"]),
+                            (["ServerSkipsClientAuth", "FingerprintAnyInChain"], "AuthClient", ["ec"]),
+                            (["ServerSkipsClientAuth", "SkeShareBeforeVerify"], "AuthKeyClient", ["ec"]),
+                            (["ServerSkipsClientAuth", "NonEcKeySkipsProof"], "AuthClient", ["nonec"]),
+                            (["ServerSkipsClientAuth", "NonEcKeySkipsProof"], "AuthKeyClient", ["nonec"]),
+                            (["ServerSkipsClientAuth", "NonEcKeySkipsProof"], "NonEcNeverConnects", ["nonec"])):
         path = _cfg("selftest")
         dc.write_mc_cfg(path, spec="Spec", deviations=dev, adv_kinds=ADV, adv_budget=1, max_ord=1, fpcs=FP, fpss=FP,
-                        idcs=["certC", "certM", "stolen", "chain"], idss=["certS", "certM", "stolen", "chain"], deadline=True,
-                        invariants=[inv])
+                        idcs=["certC", "certM", "stolen", "chain"], idss=["certS", "certM", "stolen", "chain"], kindss=kinds,
+                        deadline=True, invariants=[inv])
         res = vlib.tlc("MC_DtlsHandshake", os.path.basename(path), workers=6, timeout=900, tag="c02_selftest")
         os.remove(path)
         hit = any(inv in e for e in res["errors"])
